@@ -357,7 +357,7 @@ func (s *Session) endTx(committed bool) {
 	for _, sc := range db.schemas {
 		for _, t := range sc.Tables {
 			for _, r := range t.Rows {
-				if r.Locker == top {
+				if r.Locker != 0 && db.topOf(r.Locker) == top {
 					r.Locker = 0
 				}
 			}
